@@ -473,7 +473,10 @@ impl ViCut {
 		std::mem::swap(&mut mode, &mut self.mode);
 
 		if mode.is_repeatable() {
-			self.repeat_action = mode.as_replay();
+			// A mode with nothing to replay (visual mode) leaves the last change in place for '.'
+			if let Some(replay) = mode.as_replay() {
+				self.repeat_action = Some(replay);
+			}
 		}
 
 		let should_clamp = self.mode.clamp_cursor();
